@@ -14,7 +14,7 @@ RULE = ("model-guided random histories of 2-6 threads in 1-2 processes on 1-2 lo
         "walks biased towards contention; oracle = reference verdict (reject iff a physical CPU would hold "
         "two RUNNING threads or a thread-FSM error) vs ovniemu exit status, cpu.prv types 3/2/1 and "
         "thread.prv 4/2/6 after every event time, plus cpu rows recomputed from thread.prv alone. "
-        "Non-trivial = contains a migration of a non-running thread or a vCPU oversubscription; "
+        "A second part repeats this with the kernel model enabled and KCO/KCI events interleaved (a thread that is out of the CPU still occupies it).  Non-trivial = contains a migration of a non-running thread or a vCPU oversubscription; "
         "distinct = the history.")
 ASSUMPTIONS = ["remote affinity onto the CPU the target already occupies is excluded (section 5)",
                "OAs by a non-active thread is excluded", "no cross-stream clock ties"]
@@ -23,6 +23,13 @@ PROF = gen.Profile(kinds=["state", "state", "affinity", "affinity", "noeffect"],
                    models=[], max_looms=2, max_procs=2, max_threads=3, max_cpus=3, min_threads=2,
                    steps=(8, 60), lint=True, wild_kinds=["state", "affinity", "contend", "contend", "contend"],
                    modes=("legal", "illegal", "illegal", "noend"))
+
+
+# the same with the kernel model on: threads marked "out of the CPU" (KCO..KCI) still count as running
+PROF_K = gen.Profile(kinds=["state", "state", "affinity", "affinity", "kernel", "kernel"],
+                     models=["K"], max_looms=2, max_procs=2, max_threads=3, max_cpus=2, min_threads=2,
+                     steps=(8, 60), lint=True, wild_kinds=["state", "affinity", "contend", "contend", "contend"],
+                     modes=("legal", "legal", "illegal", "illegal", "noend"))
 
 
 def cross_check(model, d, r):
@@ -78,4 +85,6 @@ def run(case, ctx):
 
 def parts(tier):
     return [Part("histories", run, strategy=lambda ctx: gen.history(PROF),
-                 budget={"quick": 8000, "thorough": 120000})]
+                 budget={"quick": 8000, "thorough": 120000}),
+            Part("histories-kernel-model", run, strategy=lambda ctx: gen.history(PROF_K),
+                 budget={"quick": 3000, "thorough": 40000})]
